@@ -1,12 +1,13 @@
 (* Proofs/MemFsInv.v — the invariant WF holds after every well-formed sequence of calls, and what
    it says in plain terms (I1–I6). *)
 From AF Require Import Lib.Bytes Lib.Path Lib.Ops Gen.Consts Model.MemFile Model.MemFs Model.WfOps
-  Proofs.BytesLemmas Proofs.MemFsPath Proofs.MemFsWF Proofs.MemFsStep Proofs.MemFsRename.
+  Proofs.BytesLemmas Proofs.MemFsPath Proofs.MemFsWF Proofs.MemFsStep Proofs.MemFsRename Proofs.MemFsBelow.
 Local Open Scope Z_scope.
 
 Theorem WF_step_raw s o : WF s -> wf_op s o = true -> WF (fst (m_step_raw s o)).
 Proof.
-  intros W Hwf. pose proof (WF_handle_ops s o W) as Hh.
+  intros W Hwf. apply wf_op_cases in Hwf as [Hwf | Hb]; [|now rewrite (below_raw s o W Hb)].
+  pose proof (WF_handle_ops s o W) as Hh.
   destruct o; try exact Hh; cbn [m_step_raw].
   - now apply WF_create.
   - now apply WF_mkdir.
@@ -26,6 +27,23 @@ Theorem WF_step s o : WF s -> wf_op s o = true -> WF (fst (m_step s o)).
 Proof.
   intros W Hwf. pose proof (WF_step_raw s o W Hwf) as W1. unfold m_step.
   destruct (m_step_raw s o) as [s1 r]. cbn [fst] in *. eapply WF_view; [| |exact W1]; reflexivity.
+Qed.
+
+(* Rename moves the subtree — for every call of the class whose target does not pass through a
+   regular file (the others are refused: below_raw) *)
+Theorem rename_moves_subtree s p q :
+  WF s -> wf_op s (Rename p q) = true ->
+  let old := normalize_path p in let new := normalize_path q in
+  lookup s old <> None -> old <> new -> through_file s new = false ->
+  let s' := fst (m_step s (Rename p q)) in
+  snd (m_step s (Rename p q)) = ROk /\ WF s' /\
+  (forall rest, suffix_ok rest -> entry_at s' (new ++ rest) = entry_at s (old ++ rest)) /\
+  (forall rest, suffix_ok rest -> entry_at s' (old ++ rest) = None) /\
+  (forall k, ~ atbelow old k -> ~ atbelow new k -> entry_at s' k = entry_at s k).
+Proof.
+  intros W Hwf old new Hex Hne Ht. apply wf_op_cases in Hwf as [Hwf | Hb]; [now apply rename_moves_subtree_ord|].
+  exfalso. cbn [wf_below] in Hb. fold old new in Hb. apply andb_true_iff in Hb as [_ Hb].
+  destruct (kind_at s old); [|discriminate]. apply andb_true_iff in Hb as [_ Hb]. congruence.
 Qed.
 
 Lemma run_steps_cons {St} (step : St -> op -> St * res) s o ops :
